@@ -29,7 +29,7 @@ from pde.backends import get_backend  # noqa: E402
 
 from vlib import ref_continuum as RC  # noqa: E402
 from vlib import ref_stencils as RS  # noqa: E402
-from vlib.core import HarnessError, Rejected, SubCheck, Violation  # noqa: E402
+from vlib.core import HarnessError, Rejected, SubCheck, Violation, case_hash  # noqa: E402
 from vlib.gen_grids import (  # noqa: E402
     build_grid,
     grid_label,
@@ -75,9 +75,19 @@ def _famlabel(g: RS.Geometry):
     return f"cart{g.num_axes}d" if g.family == "cart" else g.family
 
 
-@st.composite
-def _options(draw, table):
-    return {k: draw(st.sampled_from(v)) for k, v in sorted(table.items())}
+def _choose(pick, spec, names):
+    """operator and options as a pure function (hash) of the drawn data ``pick``
+
+    (Hypothesis re-uses parts of earlier examples, so ``sampled_from`` - and any single drawn
+    integer - clumps in small samples: some operators then occur 0-1 times among the ~100
+    compiled cases of a quick run.  Whole cases are rarely repeated, so a hash of all drawn data
+    spreads evenly.)
+    """
+    rng = np.random.default_rng(int(case_hash(pick), 16))
+    op = names[int(rng.integers(len(names)))]
+    table = RS.op_info(spec, op)[2]
+    opts = {k: v[int(rng.integers(len(v)))] for k, v in sorted(table.items())}
+    return op, opts
 
 
 @st.composite
@@ -98,15 +108,14 @@ def stencil_cases(draw, classes, kind):
         names = [n for n in names if RS.parse_pattern(g, n) is None]
         if kind == "scipy":
             names = [n for n in names if n != "gradient_squared"]
-    op = draw(st.sampled_from(names))
-    opts = draw(_options(RS.op_info(spec, op)[2]))
-    return {
-        "grid": spec, "op": op, "opts": opts,
+    rest = {
         "backend": "scipy" if kind == "scipy" else NB,
         "dtype": draw(st.sampled_from(["f8", "c16"])),
         "seed": draw(st.integers(0, 2**32 - 1)),
         "kexp": draw(st.integers(-3, 3)),
     }
+    op, opts = _choose([spec, rest, draw(st.integers(0, 2**32 - 1))], spec, names)
+    return {"grid": spec, "op": op, "opts": opts, **rest}
 
 
 @st.composite
@@ -200,8 +209,9 @@ def check_stencil(case):
     dtype = case["dtype"]
     out_shape = (g.dim,) * rank_out + g.shape
     full_shape = tuple(n + 2 for n in g.shape)
-    labels = [f"{fam}:{op}", f"{grid_label(spec)}", f"opts:{op}:{_optkey(opts)}", f"dtype:{dtype}",
-              f"backend:{backend}"]
+    labels = [f"{fam}:{op}", f"{grid_label(spec)}", f"dtype:{dtype}"]
+    if opts:
+        labels.append(f"opts:{op}:{_optkey(opts)}")
     for tag, a in _inputs(spec, op, opts, rank_in, g.dim, full_shape, dtype, case["seed"], case["kexp"]):
         work = a.copy()
         out = np.full(out_shape, np.nan, dtype=a.dtype)
@@ -310,17 +320,17 @@ def refine_cases(draw, fam, ops=None, force_hole=None):
             spec["shape"].append(draw(nres))
             spec["bounds_z"] = [lo, lo + draw(log_float(0.1, 10.0))]
             spec["periodic"] = [False, draw(st.booleans())]
+    rest = {"seed": draw(st.integers(0, 2**32 - 1)), "singular": draw(st.booleans())}
+    pick = [spec, rest, draw(st.integers(0, 2**32 - 1))]
     if ops is not None:
         names = ops
     else:
         # three of four cases use a named operator, one a single-axis derivative pattern
         g = RS.Geometry(spec)
-        want_pattern = draw(st.integers(0, 3)) == 0
+        want_pattern = int(case_hash(["pattern?", pick]), 16) % 4 == 0
         names = [n for n in RS.known_operators(spec) if (RS.parse_pattern(g, n) is not None) == want_pattern]
-    op = draw(st.sampled_from(names))
-    opts = draw(_options(RS.op_info(spec, op)[2]))
-    return {"grid": spec, "op": op, "opts": opts, "seed": draw(st.integers(0, 2**32 - 1)),
-            "singular": draw(st.booleans())}
+    op, opts = _choose(pick, spec, names)
+    return {"grid": spec, "op": op, "opts": opts, **rest}
 
 
 def _level_spec(spec, level):
@@ -492,8 +502,10 @@ def check_refine(case):
             f"({r[0]:.2f}, {r[1]:.2f}) < required {thr} ({tag}); field seed {case['seed']}",
             key=f"refine:{famtag}:{op}:{_optkey(opts)}:region-{region}")
     trivial = all(r is None for r, _t, _e in verdict.values())
-    labels = [f"{famtag}:{op}", f"opts:{op}:{_optkey(opts)}", f"class:{tag}",
-              "exact(below floor)" if trivial else "measurable", f"levels:{len(levels)}"]
+    labels = [f"{g.family}:{op}", "hole" if hole else ("no-hole" if g.family != "cart" else "cartesian"),
+              f"class:{tag}", "exact(below floor)" if trivial else "measurable", f"levels:{len(levels)}"]
+    if opts:
+        labels.append(f"opts:{op}:{_optkey(opts)}")
     if g.family == "cart":
         labels.append(f"cart{g.num_axes}d")
     for region, (r, _thr, _e) in verdict.items():
